@@ -283,6 +283,7 @@ class Proc:
                                         '--progress', self.prog]
         self.cmd = cmd
         self.p = subprocess.Popen(cmd, stdout=self.err, stderr=self.err, env=self.env, cwd=self.workdir, start_new_session=True)
+        self.groups = getattr(self, 'groups', []) + [self.p.pid]
         self.t0 = time.time()
         self.last_prog = None
         self.last_change = time.time()
@@ -388,6 +389,14 @@ def run_variant(pid, cfg, variant, tier, seed, workdir, scale, jobs, only=None, 
                 continue
             pr.first = nxt
             pr.start()
+    for pr in procs:
+        # a harness that died or gave up may leave (stopped) grandchildren behind, e.g. separate-process test children of a
+        # changed tree; every harness process runs in a session of its own, so its process group can be swept safely
+        for g in getattr(pr, 'groups', []):
+            try:
+                os.killpg(g, signal.SIGKILL)
+            except OSError:
+                pass
     for pr in procs:
         outp = os.path.join(workdir, 'out-' + pr.tag)
         if os.path.exists(outp):
